@@ -1,0 +1,54 @@
+//go:build verif
+
+package cors
+
+// Contracts for package cors (comment-only; read by /verif/govc).
+//
+// The request-handling helpers are private, loop-free methods; they are
+// declared transparent, i.e. executed in place at their call sites, so that
+// every property clause below is checked against the composed real code of
+// the http.Handler returned by Wrap.
+
+//@ func internalConfig.handleNonCORS
+//@   transparent
+//@ func internalConfig.handleCORSPreflight
+//@   transparent
+//@ func internalConfig.processOriginForPreflight
+//@   transparent
+//@ func internalConfig.processACRPN
+//@   transparent
+//@ func internalConfig.handleCORSActual
+//@   transparent
+//@ func internalConfig.processACRM
+//@   transparent
+//@ func internalConfig.processACRH
+//@   transparent
+
+//@ func Middleware.Wrap$1
+//@   props C03 C09 C11 C16 C17 C18
+//@   uses glob_singletons
+//@   frozen E! MP! MV! F!origins_node F!util_Set F!cors_internalConfig F!http_Request
+//@   requires m != nil && r != nil
+//@   requires hdr(w) != r.Header
+//@   requires old(m.icfg) != nil ==> ICfgInv(old(m.icfg))
+//@
+//@   ensures C11.handler_calls: nevents("ServeHTTP") == ((old(m.icfg) == nil || !old(IsPreflight(r))) ? 1 : 0)
+//@   ensures C11.handler_args: nevents("ServeHTTP") == 1 ==> eventarg("ServeHTTP", 0) === h && eventarg("ServeHTTP", 1) === w && eventarg("ServeHTTP", 2) === r
+//@   ensures C11.handler_last: nevents("ServeHTTP") == 1 ==> lastevent("ServeHTTP") && nevents("WriteHeader") == 0
+//@   ensures C11.preflight_header_once: nevents("ServeHTTP") == 0 ==> nevents("WriteHeader") == 1 && lastevent("WriteHeader")
+//@   ensures C11.no_body: nevents("Write") == 0
+//@   ensures C11.passthrough_identity: old(m.icfg) == nil ==> emitted(mapV(hdr(w))) === old(mapV(hdr(w))) && emitted(mapP(hdr(w))) === old(mapP(hdr(w)))
+//@   ensures C11.frame_non_preflight: !old(IsPreflight(r)) ==> (forall k string :: k !== "Vary" && k !== "Access-Control-Allow-Origin" && k !== "Access-Control-Allow-Credentials" && k !== "Access-Control-Expose-Headers" ==> at(emitted(mapV(hdr(w))), k) === at(old(mapV(hdr(w))), k) && at(emitted(mapP(hdr(w))), k) == at(old(mapP(hdr(w))), k))
+//@   ensures C11.no_key_deleted: forall k string :: at(old(mapP(hdr(w))), k) ==> at(emitted(mapP(hdr(w))), k)
+//@   ensures C11.vary_appended: old(has(hdr(w), "Vary")) ==> emitted(has(hdr(w), "Vary")) && len(emitted(get(hdr(w), "Vary"))) >= len(old(get(hdr(w), "Vary")))
+//@
+//@   ensures C03.acao_shape: old(m.icfg) != nil && Changed(w, "Access-Control-Allow-Origin") ==> (emitted(get(hdr(w), "Access-Control-Allow-Origin")) === old(OriginSglOf(r)) && old(HasOrigin(r)) && old(OriginListed(old(m.icfg), OriginOf(r)))) || (old(AllowAll(old(m.icfg))) && (emitted(get(hdr(w), "Access-Control-Allow-Origin")) === headers.WildcardSgl || (len(emitted(get(hdr(w), "Access-Control-Allow-Origin"))) == 1 && emitted(get(hdr(w), "Access-Control-Allow-Origin")[0]) == "*")))
+//@   ensures C03.acac: old(m.icfg) != nil && Changed(w, "Access-Control-Allow-Credentials") ==> old(m.icfg).credentialed && (emitted(get(hdr(w), "Access-Control-Allow-Credentials")) === headers.TrueSgl || (len(emitted(get(hdr(w), "Access-Control-Allow-Credentials"))) == 1 && emitted(get(hdr(w), "Access-Control-Allow-Credentials")[0]) == "true")) && emitted(get(hdr(w), "Access-Control-Allow-Origin")) === old(OriginSglOf(r)) && old(HasOrigin(r)) && old(OriginListed(old(m.icfg), OriginOf(r)))
+//@   ensures C03.nothing_if_not_allowed: old(m.icfg) != nil && !old(AllowAll(old(m.icfg))) && !(old(HasOrigin(r)) && old(OriginListed(old(m.icfg), OriginOf(r)))) ==> NoCORSHeaderChanged(w)
+//@   ensures C03.preflight_only: old(m.icfg) != nil && !old(IsPreflight(r)) ==> !Changed(w, "Access-Control-Allow-Methods") && !Changed(w, "Access-Control-Allow-Headers") && !Changed(w, "Access-Control-Allow-Private-Network") && !Changed(w, "Access-Control-Max-Age")
+//@   ensures C03.expose_not_on_preflight: old(m.icfg) != nil && old(IsPreflight(r)) ==> !Changed(w, "Access-Control-Expose-Headers")
+//@   ensures C03.max_age_exact: old(m.icfg) != nil && Changed(w, "Access-Control-Max-Age") ==> emitted(get(hdr(w), "Access-Control-Max-Age")) === old(m.icfg).acma
+//@   ensures C03.expose_exact: old(m.icfg) != nil && Changed(w, "Access-Control-Expose-Headers") ==> len(emitted(get(hdr(w), "Access-Control-Expose-Headers"))) == 1 && emitted(get(hdr(w), "Access-Control-Expose-Headers")[0]) === old(m.icfg).aceh
+//@
+//@   ensures C16.fail_uniform: old(m.icfg) != nil && !old(m.debug) && old(IsPreflight(r)) && !old(PreflightOK(old(m.icfg), r, false)) ==> status() == 403 && NoCORSHeaderChanged(w)
+//@   ensures C16.success_values: old(m.icfg) != nil && !old(m.debug) && old(IsPreflight(r)) ==> (Changed(w, "Access-Control-Allow-Methods") ==> get(hdr(w), "Access-Control-Allow-Methods") === headers.WildcardSgl || get(hdr(w), "Access-Control-Allow-Methods") === old(ACRMSglOf(r))) && (Changed(w, "Access-Control-Allow-Headers") ==> get(hdr(w), "Access-Control-Allow-Headers") === headers.WildcardSgl || get(hdr(w), "Access-Control-Allow-Headers") === headers.WildcardAuthSgl || get(hdr(w), "Access-Control-Allow-Headers") === old(ACRHOf(r))) && (Changed(w, "Access-Control-Allow-Private-Network") ==> get(hdr(w), "Access-Control-Allow-Private-Network") === headers.TrueSgl) && (Changed(w, "Access-Control-Allow-Origin") ==> get(hdr(w), "Access-Control-Allow-Origin") === headers.WildcardSgl || get(hdr(w), "Access-Control-Allow-Origin") === old(OriginSglOf(r))) && (Changed(w, "Access-Control-Allow-Credentials") ==> get(hdr(w), "Access-Control-Allow-Credentials") === headers.TrueSgl) && (Changed(w, "Access-Control-Max-Age") ==> get(hdr(w), "Access-Control-Max-Age") === old(m.icfg).acma)
